@@ -109,12 +109,12 @@ void ABTI_ythread_callback_suspend(void *arg)
 {
     ABTI_ythread *p_prev = (ABTI_ythread *)arg;
     ABTI_VERIF_EV(ABTI_VEV_CB, &p_prev->thread, ABTI_VCB_SUSPEND, 0);
-    /* Increase the number of blocked threads of the original pool (i.e., before
-     * migration) */
-    ABTI_pool_inc_num_blocked(p_prev->thread.p_pool);
-    ABTI_VERIF_EV(ABTI_VEV_NB_WHO, &p_prev->thread, p_prev->thread.p_pool, 1);
     /* Request handling.  p_prev->thread.p_pool might be changed. */
     ABTI_thread_handle_request(&p_prev->thread, ABT_FALSE);
+    /* Increase the number of blocked threads of the pool this ULT will be
+     * pushed back to when it is resumed (i.e., after migration) */
+    ABTI_pool_inc_num_blocked(p_prev->thread.p_pool);
+    ABTI_VERIF_EV(ABTI_VEV_NB_WHO, &p_prev->thread, p_prev->thread.p_pool, 1);
     /* Set this thread's state to BLOCKED. */
     ABTI_VERIF_BEGIN();
     ABTD_atomic_release_store_int(&p_prev->thread.state,
@@ -131,6 +131,8 @@ void ABTI_ythread_callback_resume_suspend_to(void *arg)
     ABTI_ythread *p_prev = p_arg->p_prev;
     ABTI_ythread *p_next = p_arg->p_next;
     ABTI_VERIF_EV(ABTI_VEV_CB, &p_prev->thread, ABTI_VCB_RESUME_SUSPEND_TO, &p_next->thread);
+    /* Request handling.  p_prev->thread.p_pool might be changed. */
+    ABTI_thread_handle_request(&p_prev->thread, ABT_FALSE);
     ABTI_pool *p_prev_pool = p_prev->thread.p_pool;
     ABTI_pool *p_next_pool = p_next->thread.p_pool;
     if (p_prev_pool != p_next_pool) {
@@ -141,8 +143,6 @@ void ABTI_ythread_callback_resume_suspend_to(void *arg)
         ABTI_pool_dec_num_blocked(p_next_pool);
         ABTI_VERIF_EV(ABTI_VEV_NB_WHO, &p_next->thread, p_next_pool, 2);
     }
-    /* Request handling.  p_prev->thread.p_pool might be changed. */
-    ABTI_thread_handle_request(&p_prev->thread, ABT_FALSE);
     /* Set this thread's state to BLOCKED. */
     ABTI_VERIF_BEGIN();
     ABTD_atomic_release_store_int(&p_prev->thread.state,
@@ -185,11 +185,11 @@ void ABTI_ythread_callback_suspend_unlock(void *arg)
     ABTI_ythread *p_prev = p_arg->p_prev;
     ABTD_spinlock *p_lock = p_arg->p_lock;
     ABTI_VERIF_EV(ABTI_VEV_CB, &p_prev->thread, ABTI_VCB_SUSPEND_UNLOCK, 0);
+    /* Request handling.  p_prev->thread.p_pool might be changed. */
+    ABTI_thread_handle_request(&p_prev->thread, ABT_FALSE);
     /* Increase the number of blocked threads */
     ABTI_pool_inc_num_blocked(p_prev->thread.p_pool);
     ABTI_VERIF_EV(ABTI_VEV_NB_WHO, &p_prev->thread, p_prev->thread.p_pool, 1);
-    /* Request handling.  p_prev->thread.p_pool might be changed. */
-    ABTI_thread_handle_request(&p_prev->thread, ABT_FALSE);
     /* Set this thread's state to BLOCKED. */
     ABTI_VERIF_BEGIN();
     ABTD_atomic_release_store_int(&p_prev->thread.state,
@@ -208,11 +208,11 @@ void ABTI_ythread_callback_suspend_join(void *arg)
     ABTI_ythread *p_prev = p_arg->p_prev;
     ABTI_ythread *p_target = p_arg->p_target;
     ABTI_VERIF_EV(ABTI_VEV_CB, &p_prev->thread, ABTI_VCB_SUSPEND_JOIN, 0);
+    /* Request handling.  p_prev->thread.p_pool might be changed. */
+    ABTI_thread_handle_request(&p_prev->thread, ABT_FALSE);
     /* Increase the number of blocked threads */
     ABTI_pool_inc_num_blocked(p_prev->thread.p_pool);
     ABTI_VERIF_EV(ABTI_VEV_NB_WHO, &p_prev->thread, p_prev->thread.p_pool, 1);
-    /* Request handling.  p_prev->thread.p_pool might be changed. */
-    ABTI_thread_handle_request(&p_prev->thread, ABT_FALSE);
     /* Set this thread's state to BLOCKED. */
     ABTI_VERIF_BEGIN();
     ABTD_atomic_release_store_int(&p_prev->thread.state,
@@ -236,11 +236,11 @@ void ABTI_ythread_callback_suspend_replace_sched(void *arg)
     ABTI_ythread *p_prev = p_arg->p_prev;
     ABTI_sched *p_main_sched = p_arg->p_main_sched;
     ABTI_VERIF_EV(ABTI_VEV_CB, &p_prev->thread, ABTI_VCB_SUSPEND_REPLACE_SCHED, 0);
+    /* Request handling.  p_prev->thread.p_pool might be changed. */
+    ABTI_thread_handle_request(&p_prev->thread, ABT_FALSE);
     /* Increase the number of blocked threads */
     ABTI_pool_inc_num_blocked(p_prev->thread.p_pool);
     ABTI_VERIF_EV(ABTI_VEV_NB_WHO, &p_prev->thread, p_prev->thread.p_pool, 1);
-    /* Request handling.  p_prev->thread.p_pool might be changed. */
-    ABTI_thread_handle_request(&p_prev->thread, ABT_FALSE);
     /* Set this thread's state to BLOCKED. */
     ABTI_VERIF_BEGIN();
     ABTD_atomic_release_store_int(&p_prev->thread.state,
